@@ -972,17 +972,42 @@ pub fn c12(rep: &mut Report) {
             let op = o.clone();
             let _ = a.apply(&op);
             kept.push(op);
-            // retention monitor: no word of the driver object is an address inside a buffer lent so far
-            let words = crate::panels::words_of(&a.drv);
-            rep.count("driver_words_scanned", words.len() as u64);
-            for (ki, k) in kept.iter().enumerate() {
-                if let Op12::Write1(p) | Op12::Write2(p) | Op12::Write1Partial(_, p) | Op12::Write2Partial(_, p) | Op12::SetLut(_, p) = k {
-                    let lo = p.as_ptr() as usize;
-                    let hi = lo + p.len();
-                    if !p.is_empty() && words.iter().any(|w| *w >= lo && *w < hi) {
-                        fail(rep, k.name(), "pointer-retained", vec![], format!("after call #{} returned the driver object holds an address inside the {}-byte buffer lent to call #{} ({})", kept.len(), p.len(), ki + 1, k.name()), J::obj().set("panel", P).set("history", seq.iter().map(|o| o.to_json()).collect::<Vec<_>>()));
+        }
+        // retention monitor: a word of the driver object that changes during a call to an address inside a
+        // buffer lent so far, reproduced in a second run whose buffers live at other addresses
+        let scan = |pad: usize| -> Vec<(usize, usize, usize, usize)> {
+            let _shift: Vec<Vec<u8>> = (0..pad).map(|i| vec![0u8; 4096 + 64 * i]).collect();
+            let mut rig = Rig12::ready();
+            let mut held: Vec<Op12> = Vec::new();
+            let mut cands = Vec::new();
+            for (oi, o) in seq.iter().enumerate() {
+                let op = o.clone();
+                let before = crate::panels::words_of(&rig.drv);
+                let _ = rig.apply(&op);
+                held.push(op);
+                let after = crate::panels::words_of(&rig.drv);
+                for (wi, w) in after.iter().enumerate() {
+                    if before.get(wi) == Some(w) {
+                        continue;
+                    }
+                    for (ki, k) in held.iter().enumerate() {
+                        if let Op12::Write1(p) | Op12::Write2(p) | Op12::Write1Partial(_, p) | Op12::Write2Partial(_, p) | Op12::SetLut(_, p) = k {
+                            let lo = p.as_ptr() as usize;
+                            if !p.is_empty() && *w >= lo && *w < lo + p.len() {
+                                cands.push((oi, wi, ki, *w - lo));
+                            }
+                        }
                     }
                 }
+            }
+            cands
+        };
+        let first = scan(0);
+        rep.count("driver_words_scanned", (crate::panels::words_of(&a.drv).len() * seq.len()) as u64);
+        if !first.is_empty() {
+            let second = scan(3);
+            if let Some((oi, _wi, ki, off)) = first.iter().find(|c| second.contains(c)) {
+                fail(rep, seq[*ki].name(), "pointer-retained", vec![], format!("during call #{} a word of the driver object became an address inside the buffer lent to call #{} ({}), offset {}; reproduced with the buffers at other addresses", oi + 1, ki + 1, seq[*ki].name(), off), J::obj().set("panel", P).set("history", seq.iter().map(|o| o.to_json()).collect::<Vec<_>>()));
             }
         }
         let mut b = Rig12::ready();
